@@ -233,11 +233,10 @@ def check(run, replay=None):
                 combos.append((s, b, f))
     rnd = random.Random(run.seed)
     if run.tier == "quick":
-        # every site with every break-out, one filler each (seeded choice)
-        pick = {}
-        for c in combos:
-            pick.setdefault((c[0], json.dumps(c[1])), []).append(c)
-        combos = [rnd.choice(v) for k, v in sorted(pick.items(), key=lambda kv: str(kv[0]))]
+        # every site with every break-out; a declaration filler always (valid wherever a comment of a
+        # file-level declaration is broken), a struct-field filler for the single line terminators and */
+        # (valid where the comment of a struct field is broken); the method filler in the thorough tier
+        combos = [c for c in combos if c[2] == "decl" or (c[2] == "field" and c[1] in (["NL"], ["STARSLASH"]))]
 
     def generate(doc, tag):
         mod = run.scratch_module("lex-" + tag, modname="scratch/gen")
